@@ -25,10 +25,14 @@ CLAIM = {
             "solve_hydraulics: the row of every non-slack node is exactly the nodal balance; with ANY solution x of the "
             "assembled system the imbalance after m - alpha x is (1 - alpha) times the old one (alpha = 1: exact balance "
             "after one step from any iterate); the new slack mass is the imbalance of its node; the slack masses sum to "
-            "minus the total load (induction over branches); ConstFlow load aggregation for any labels / row order. "
+            "minus the total load (induction over branches); ConstFlow load aggregation (sorted grouping, label -> position "
+            "lookup, scaling, sign, in_service) adds to LOAD_i exactly the sum over the rows attached to node i, for any "
+            "labels / row order. "
             "The model is tied to /repo by exact integer / dyadic correspondences evaluated inside Coq on every run.",
     "note": "All theorems are closed under the global context (no axioms). Assumed and checked by correspondence, not "
             "proved from source: the kernel columns (df_dm_nodes = 1, load_vec_nodes_* = MDOTINIT), JAC_DERIV_MSL = -1. "
+            "Partial: HeatConsumer QE modes overwrite MDOTINIT inside the hooks (balance then holds from the next "
+            "iteration on); result extraction signs are monitored, not proved. "
             "Oracles: spsolve (theorems hold for any solution), IEEE rounding (monitors observe round-off only). "
             "Circulation-pump flow junctions balance within tol_m, not round-off (slack mass reset, unreported).",
     "technique": "Coq proof over hand-written generic-ring model + exact model/implementation correspondence inside Coq "
@@ -80,6 +84,12 @@ def matrix_records(ctx, specs, b, want_pc=False):
 
 
 def exact_oracle(ctx, spec, what="oracle"):
+    """identity rows (prescribed flows) make the system singular on tree branches: retry without them"""
+    r = _exact_oracle(ctx, spec, True)
+    return r if r is not None else _exact_oracle(ctx, spec, False)
+
+
+def _exact_oracle(ctx, spec, with_identity_rows):
     """Real build_system_matrix on kernel-conform integer data, solved exactly over Q; evaluates the conclusions of
     C01.2/3/4 and C03.1/3 on the REAL matrix (no model involved). -> list of failed clause dicts"""
     from fractions import Fraction
@@ -100,7 +110,7 @@ def exact_oracle(ctx, spec, what="oracle"):
     pcb = br[:, IB.BRANCH_TYPE] == IB.PC
     for col in (IB.JAC_DERIV_DM, IB.JAC_DERIV_DP, IB.JAC_DERIV_DP1):
         br[pcb, col] = 0
-    ident = [k for k in range(nb) if not pcb[k] and rng.random() < 0.2]
+    ident = [k for k in range(nb) if not pcb[k] and rng.random() < 0.2] if with_identity_rows else []
     for k in ident:
         br[k, IB.JAC_DERIV_DM], br[k, IB.JAC_DERIV_DP], br[k, IB.JAC_DERIV_DP1], br[k, IB.LOAD_VEC_BRANCHES] = 1, 0, 0, 0
     nd[:, IN.LOAD] = [rng.randint(-9, 9) for _ in range(n)]
@@ -157,13 +167,26 @@ def monitor_nets(ctx, specs, which, limit):
     """runs the real pipeflow with tight tolerances; which in {"c01", "c03"}; records violations; -> stats"""
     import numpy as np
     stats = {"ok": 0, "notconv": 0, "other": 0, "checked": 0}
-    for spec, prof in specs[:limit]:
+    seen_sig = {}
+
+    def report(sig, what, rep):
+        k = str(sorted(sig.items()))
+        seen_sig[k] = seen_sig.get(k, 0) + 1
+        if seen_sig[k] <= 2:                     # at most two replay files per signature
+            ctx.violation(sig, what, rep)
+    for k_net, (spec, prof) in enumerate(specs[:limit]):
         try:
             net = gen.build(spec)
         except Exception:  # noqa: BLE001
             continue
         mode = "hydraulics"
-        status, msg = H.run_pipeflow(net, mode=mode, use_numba=False)
+        # C01: every second net with the DEFAULT tolerances (tol_m = 1e-5): by balance_after_step the nodal
+        # imbalance after any full step is round-off, however loosely the iteration is stopped - this is what
+        # exposes a wrong Jacobian entry whose residual is still right
+        loose = which == "c01" and k_net % 2 == 1
+        tol_kw = dict(tol_p=1e-5, tol_m=1e-5, tol_res=1e-3) if loose else {}
+        tol_m = 1e-5 if loose else 1e-10
+        status, msg = H.run_pipeflow(net, mode=mode, use_numba=False, **tol_kw)
         if status != "ok":
             stats["notconv" if status == "notconv" else "other"] += 1
             ctx.count("monitor:" + status)
@@ -176,22 +199,22 @@ def monitor_nets(ctx, specs, which, limit):
             worst = 0.0
             for j, imb, sabs, bound, circ in rows:
                 stats["checked"] += 1
-                b = bound + (1e-8 if circ else 0.0)       # DESIGN C01.9: slack mass of a circ-pump flow node <= tol_m
+                b = bound + (100 * tol_m if circ else 0.0)  # DESIGN C01.9: slack mass of a circ-pump flow node ~ tol_m
                 worst = max(worst, abs(imb) / b)
                 if not abs(imb) <= b:
-                    ctx.violation({"clause": "junction_balance", "circ_flow_junction": circ, "profile": prof,
+                    report({"clause": "junction_balance", "circ_flow_junction": circ, "profile": prof,
                                    "features": spec.get("features", [])},
                                   "reported mass flows at junction %s sum to %.3e (bound %.1e, sum|m| %.3e)" % (j, imb, b, sabs),
                                   {"spec": spec, "junction": j, "imbalance": imb,
-                                   "options": dict(H.TIGHT, mode=mode, use_numba=False)})
-            gb = 1e-9 * (1 + mag) + (1e-8 if has_circ else 0.0)
+                                   "options": dict(H.TIGHT, mode=mode, use_numba=False, **tol_kw)})
+            gb = 1e-9 * (1 + mag) + (100 * tol_m if has_circ else 0.0)
             if not abs(feed + cons) <= gb:
-                ctx.violation({"clause": "global_balance", "profile": prof, "has_circ_pump": has_circ},
+                report({"clause": "global_balance", "profile": prof, "has_circ_pump": has_circ},
                               "sum of ext-grid flows %.6e + (consumption - injection) %.6e = %.3e (bound %.1e)"
                               % (feed, cons, feed + cons, gb),
                               {"spec": spec, "options": dict(H.TIGHT, mode=mode, use_numba=False)})
             ctx.case({"kind": "pipeflow", "profile": prof, "junctions": d["junctions"], "counts": d["counts"],
-                      "worst_imbalance_over_bound": worst}, d["junctions"] > 3, key="p:" + gen.spec_key(spec)[:4000])
+                      "worst_imbalance_over_bound": worst, "default_tolerances": loose}, d["junctions"] > 3, key="p:" + gen.spec_key(spec)[:4000])
         else:
             for clause, tbl, idx, obs, exp, tol, extra in H.setpoints(net):
                 stats["checked"] += 1
@@ -200,8 +223,10 @@ def monitor_nets(ctx, specs, which, limit):
                 if not ok:
                     sig = {"clause": clause, "table": tbl}
                     if clause == "pump_lift_curve":
-                        sig["t_from_is_normal_temperature"] = bool(abs(extra["t_from_k"] - 273.15) < 1e-9)
-                    ctx.violation(sig, "%s %s[%s]: result %.12g, prescribed %.12g (tol %.1e) %s"
+                        # deltap equals the curve at mdot / rho(273.15 K) but not at the reported vdot = mdot / rho(T)
+                        sig["explained_by_normal_density"] = extra["explained_by_normal_density"]
+                        sig["fluid_is_liquid"] = True
+                    report(sig, "%s %s[%s]: result %.12g, prescribed %.12g (tol %.1e) %s"
                                   % (clause, tbl, idx, obs, exp, tol, extra),
                                   {"spec": spec, "table": tbl, "index": idx, "observed": obs, "expected": exp,
                                    "options": dict(H.TIGHT, mode=mode, use_numba=False)})
